@@ -155,4 +155,55 @@ func genTls() {
 		}
 	}
 	m.strs("templateTLSLines", tlsLines, "lines of serversTemplateText that mention ssl")
+
+	// ---- pipeline level (Model/PipelineTls.lean): listener validity and the two protocol halves of buildServers
+	gl := src("internal/mode/static/state/graph/gateway_listener.go")
+	m.strs("configureBody", gl.stmts(gl.fn("listenerConfigurator", "configure").Body),
+		"statements of listenerConfigurator.configure (validators, then conflict resolvers, then external reference resolvers)")
+	// the closure returned by createPortConflictResolver: its protocol groups and every if-condition
+	pc := gl.fn("", "createPortConflictResolver")
+	groups := ""
+	var pcConds []string
+	walk(pc.Body, func(n ast.Node) bool {
+		if as, ok := n.(*ast.AssignStmt); ok && groups == "" && strings.HasPrefix(gl.text(as), "protocolGroups :=") {
+			groups = gl.text(as)
+		}
+		if is, ok := n.(*ast.IfStmt); ok {
+			pcConds = append(pcConds, gl.text(is.Cond))
+		}
+		return true
+	})
+	m.str("portConflictGroups", groups, "protocol groups of createPortConflictResolver")
+	m.strs("portConflictConditions", pcConds, "if-conditions of createPortConflictResolver, in source order")
+	// createExternalReferencesForTLSSecretsResolver: the closure's statements
+	var resolverBody []string
+	walk(gl.fn("", "createExternalReferencesForTLSSecretsResolver").Body, func(n ast.Node) bool {
+		if fl, ok := n.(*ast.FuncLit); ok && resolverBody == nil {
+			resolverBody = gl.stmts(fl.Body)
+			return false
+		}
+		return true
+	})
+	m.strs("tlsSecretsResolverBody", resolverBody, "statements of the closure of createExternalReferencesForTLSSecretsResolver")
+	// the certificateRefs checks of createHTTPSListenerValidator
+	var httpsConds []string
+	walk(gl.fn("", "createHTTPSListenerValidator").Body, func(n ast.Node) bool {
+		if is, ok := n.(*ast.IfStmt); ok {
+			httpsConds = append(httpsConds, gl.text(is.Cond))
+		}
+		return true
+	})
+	m.strs("httpsValidatorConditions", httpsConds, "if-conditions of createHTTPSListenerValidator, in source order")
+	// dataplane.buildServers: the loop that distributes the listeners over the two protocol halves
+	var distLoop []string
+	walk(dp.fn("", "buildServers").Body, func(n ast.Node) bool {
+		if rs, ok := n.(*ast.RangeStmt); ok && distLoop == nil {
+			distLoop = append([]string{"for " + dp.text(rs.Key) + ", " + dp.text(rs.Value) + " := range " + dp.text(rs.X)}, dp.stmts(rs.Body)...)
+			return false
+		}
+		return true
+	})
+	m.strs("buildServersDistribution", distLoop, "the listener loop of dataplane.buildServers (range clause, then body statements)")
+	m.strs("upsertListenerBody", dp.stmts(dp.fn("hostPathRules", "upsertListener").Body), "statements of hostPathRules.upsertListener")
+	m.strs("createSSLServerBody", srv.stmts(srv.fn("", "createSSLServer").Body), "statements of createSSLServer")
 }
